@@ -24,6 +24,13 @@ def trees_pipeline(run, prop, observe=False):
     casesz, gz = stage_gen_trees(run, ALL_KINDS, 1, ws=1, muts=1, name="gen_zoo")
     resz, _, _ = stage_groups(run, casesz, name="parse_zoo")
     stage_judge_trees(run, resz, prop, casesz, name="judge_zoo")
+    # field groups  w:( E )  over every tree of depth <= 2 (the group is one more unary operator)
+    casesg, gg = stage_gen_trees(run, ["bare", "feq", "FGROUP"], 2, ws=1, muts=1 if prop in ("C06", "C10", "C11", "C01") else 0, name="gen_fgroup")
+    resg, _, _ = stage_groups(run, casesg, name="parse_fgroup")
+    stage_judge_trees(run, resg, prop, casesg, name="judge_fgroup")
+    casesg, gg = stage_gen_trees(run, ["bare", "feq", "FGROUP"], 3, ws=1, sample=1000 if run.tier == "quick" else 20000, name="gen_fgroup3")
+    resg, _, _ = stage_groups(run, casesg, name="parse_fgroup3")
+    stage_judge_trees(run, resg, prop, casesg, name="judge_fgroup3")
     if run.tier == "quick":
         cases, g = stage_gen_trees(run, QUICK_KINDS + (["bareint"] if prop == "C07" else []), 2, ws=1 if prop != "C07" else 0,
                                    muts=2 if prop in ("C06", "C10", "C11", "C01") else 0)
@@ -32,7 +39,7 @@ def trees_pipeline(run, prop, observe=False):
             stage_trace(run, tr, name="trace_trees")
         stage_judge_trees(run, res, prop, cases)
         # deeper trees, sampled with the seeded generator
-        cases2, g2 = stage_gen_trees(run, DEEP_KINDS, 3, ws=1, sample=1500, muts=1, name="gen_deep")
+        cases2, g2 = stage_gen_trees(run, DEEP_KINDS + ["FGROUP"], 3, ws=1, sample=1500, muts=1, name="gen_deep")
         res2, _, _ = stage_groups(run, cases2, name="parse_deep")
         stage_judge_trees(run, res2, prop, cases2, name="judge_deep")
     else:
@@ -42,7 +49,7 @@ def trees_pipeline(run, prop, observe=False):
             stage_trace(run, tr, name="trace_trees")
         stage_judge_trees(run, res, prop, cases)
         for i, (depth, n) in enumerate([(3, 20000), (4, 10000)]):
-            cases2, g2 = stage_gen_trees(run, DEEP_KINDS, depth, ws=2, sample=n, muts=2, name="gen_deep%d" % depth)
+            cases2, g2 = stage_gen_trees(run, DEEP_KINDS + ["FGROUP"], depth, ws=2, sample=n, muts=2, name="gen_deep%d" % depth)
             res2, tr2, _ = stage_groups(run, cases2, trace_every=40, name="parse_deep%d" % depth)
             if tr2:
                 stage_trace(run, tr2, name="trace_deep%d" % depth)
